@@ -188,6 +188,12 @@ def cases(tier, seed, shard, nshards):
             k += 1
             if k % nshards == shard:
                 yield {"k": "zoo", "label": label, "how": how}
+    from ..prog import registry as _reg
+    for lab in sorted(k_ for k_, v_ in _reg().items() if isinstance(v_, _reg()["Term"])):
+        for how in HOWS:
+            k += 1
+            if k % nshards == shard:
+                yield {"k": "constant", "label": lab, "how": how}
     for d in DIALECT_CLASSES:
         for how in HOWS:
             k += 1
@@ -257,6 +263,46 @@ def p_ref(i):
 _subjects = None
 
 
+def run_constant(case, mon):
+    """The module-level term constants (pseudo columns, NULL, SYSTEM_TIME): a duplicate is an object of its own; builder calls on it -
+    or on the constant found inside a duplicated statement - leave the constant of the process alone."""
+    import copy as _copy
+    import pickle as _pickle
+    from ..prog import registry
+    reg = registry()
+    c = reg[case["label"]]
+    how = case["how"]
+    dupf = {"copy": _copy.copy, "deepcopy": _copy.deepcopy, "pickle": lambda v: _pickle.loads(_pickle.dumps(v))}[how]
+    f0 = F(c)
+    t = reg["Table"]("tz")
+    q = reg["Query"].from_(t).select(c, t.a)
+    fq0 = F(q)
+    try:
+        x = dupf(c)
+        qx = dupf(q)
+    except Exception as ex:
+        mon.violation("%s:raises:%s" % (how, type(c).__name__), "%s of the constant %s raised %r" % (how, case["label"], ex))
+        return
+    mon.count("constant_duplications")
+    if F(x) != f0 or F(qx) != fq0:
+        mon.violation("%s:differs:constant:%s" % (how, case["label"]), "the %s of %s (or of a statement selecting it) renders differently" % (how, case["label"]))
+        return
+    try:
+        y = x.as_("zz_alias")
+        inner = [s_ for s_ in qx._selects if type(s_) is type(c)]
+        y2 = inner[0].as_("zz_alias2") if inner else None
+    except Exception as ex:
+        mon.count("constant_continuation_raises")
+        return
+    mon.count("constant_continuations")
+    if F(c) != f0 or F(q) != fq0 or F(reg["Query"].from_(t).select(c, t.a)) != fq0:
+        mon.violation("%s:continuation-leaks:constant:%s" % (how, case["label"]), "as_() on the %s of the module constant %s (or on the constant inside a duplicated statement) "
+                      "changed the constant itself: it renders %r now" % (how, case["label"], str(c)))
+        c.alias = None  # (put the process-wide constant back so that the run can go on)
+        return
+    mon.nontrivial(["constant", case["label"], how])
+
+
 def run_zoo(case, mon):
     """One object per term class: the duplicate fingerprints like the original and like a fresh construction; a
     replace_table continuation on either side leaves the other side alone."""
@@ -323,6 +369,8 @@ def hash_stable(s_):
 def run_case(case, mon):
     if case["k"] == "zoo":
         return run_zoo(case, mon)
+    if case["k"] == "constant":
+        return run_constant(case, mon)
     if case["k"] == "dup-pair":
         from ..siblings import dup_program
         prog, dups, want = dup_program(case["d"], *case["spec"], case["how"])
